@@ -142,6 +142,7 @@ def run_check(pid, tier, seed):
             q.put(j)
         outs = {}
         errs = []
+        timed_out = []
 
         def runner():
             while True:
@@ -162,7 +163,8 @@ def run_check(pid, tier, seed):
                     else:
                         outs[i] = json.load(open(out))
                 except subprocess.TimeoutExpired:
-                    errs.append('worker %s%r timed out' % (check['name'], ch[:2]))
+                    # not an error of the harness and not a verdict: these partitions are inconclusive
+                    timed_out.append((check['name'], ch))
 
         ths = [threading.Thread(target=runner) for _ in range(min(NCPU, len(jobs)))]
         for t in ths:
@@ -207,6 +209,12 @@ def run_check(pid, tier, seed):
                     samples.append(dict(check=r['check'], part=r['part'], tape=s['tape'], notes=s.get('notes')))
             errors.extend('%s%r: %s' % (r['check'], r['part'], e) for e in r.get('errors', [])[:3])
             notes.extend(r.get('notes', [])[:2])
+
+    for cname, ch in timed_out:
+        n_parts += len(ch)
+        pc = per_check.setdefault(cname, dict(parts=0, exhausted=0, paths=0, nontrivial=0, known=0, violations=0, unknown=0))
+        pc['parts'] += len(ch)
+        empty_parts.extend('%s%r (worker ran past its time limit)' % (cname, p) for p in ch)
 
     # ---- verdict --------------------------------------------------------------------------
     os.makedirs(os.path.join(ROOT, 'replays'), exist_ok=True)
